@@ -193,6 +193,8 @@ def make_trace(tid, rng, nops=30):
     vfs, exts, bases = [], [], []
     start = 0
     via = rng.choice(["handles", "descriptor"])
+    # a delta disk: the sparse extents fall through to a parent disk (named by the descriptor) for grains they do not hold
+    with_parent = via == "descriptor" and rng.random() < 0.4
     lines, names = [], []
     for i in range(k):
         kind = rng.choice(["flat", "hosted", "hosted", "se", "cowd"])
@@ -226,7 +228,7 @@ def make_trace(tid, rng, nops=30):
                 vf, info = enc_vmdk.build_cowd(ents, present, capacity=n * grain, grain=grain, file_id=i, max_pos=n + 3)
             exts.append({"fmt": "vmdk", "start": start, "n": n,
                          "img": {"class": "cowd" if kind == "cowd" else "se" if kind == "se" else "sparse", "gtes": gtes, "cb": 1, "cap": n,
-                                 "gd": [bool(x) for x in present], "t": [e[0] for e in ents], "p": [e[1] for e in ents], "parent": False}})
+                                 "gd": [bool(x) for x in present], "t": [e[0] for e in ents], "p": [e[1] for e in ents], "parent": with_parent}})
             bases.append(info["data_base"])
         vfs.append(vf)
         start += n
@@ -238,8 +240,12 @@ def make_trace(tid, rng, nops=30):
         for vf, nm in zip(vfs, names):
             vf.materialise(os.path.join(wdir, nm))
         ctype = rng.choice(["twoGbMaxExtentSparse", "vmfs", "vmfsSparse", "seSparse", "monolithicFlat", "custom"])
+        if with_parent:
+            VirtualFile(size_b, [(0, size_b, "pat", disk.PARENT_F)]).materialise(os.path.join(wdir, "the parent-flat.vmdk"))
+            with open(os.path.join(wdir, "the parent.vmdk"), "w", encoding="utf-8") as f:
+                f.write(enc_vmdk.descriptor_text([f'RW {size_b // 512} FLAT "the parent-flat.vmdk" 0'], create_type="monolithicFlat", cid="12345678"))
         with open(os.path.join(wdir, "disk.vmdk"), "w", encoding="utf-8") as f:
-            f.write(enc_vmdk.descriptor_text(lines, create_type=ctype))
+            f.write(enc_vmdk.descriptor_text(lines, create_type=ctype, **({"parent_cid": "12345678", "parent_hint": "the parent.vmdk"} if with_parent else {})))
 
     def opener():
         if via == "descriptor":
